@@ -1217,10 +1217,10 @@ fn main() {
     main_with(
         spec,
         |jobs, _| {
-            reg_gen!(jobs, "ops", 8000, strat_ops, body_ops; [0, 1, 2, 3, 7, 8, 16, 32, 60, 63, 64, 65, 127, 128, 129, 192, 255, 256, 257, 320, 512]);
+            reg_gen!(jobs, "ops", 8000, strat_ops, body_ops; [0, 1, 2, 3, 7, 8, 16, 32, 60, 63, 64, 65, 96, 127, 128, 129, 160, 192, 255, 256, 257, 320, 512]);
             reg_gen!(jobs, "shifts", 8000, strat_shifts, body_shifts; [0, 1, 2, 3, 7, 8, 16, 32, 60, 63, 64, 65, 127, 128, 129, 192, 255, 256, 257, 320, 512]);
-            reg_gen3!(jobs, "bits", 8000, strat_bits, body_bits; [0, 1, 2, 3, 7, 8, 16, 32, 60, 63, 64, 65, 127, 128, 129, 192, 255, 256, 257, 320, 512]);
-            reg_gen!(jobs, "num_traits", 8000, strat_nt, body_nt; [0, 1, 2, 3, 7, 8, 16, 32, 60, 63, 64, 65, 127, 128, 129, 192, 255, 256, 257, 320, 512]);
+            reg_gen3!(jobs, "bits", 8000, strat_bits, body_bits; [0, 1, 2, 3, 7, 8, 16, 32, 60, 63, 64, 65, 96, 127, 128, 129, 160, 192, 255, 256, 257, 320, 512]);
+            reg_gen!(jobs, "num_traits", 8000, strat_nt, body_nt; [0, 1, 2, 3, 7, 8, 16, 32, 60, 63, 64, 65, 72, 96, 127, 128, 129, 160, 192, 224, 255, 256, 257, 320, 512]);
             reg_gen!(jobs, "num_integer", 8000, strat_pair, body_ni; [0, 1, 2, 3, 7, 8, 16, 32, 60, 63, 64, 65, 127, 128, 129, 192, 255, 256, 257, 320, 512]);
             reg_gen!(jobs, "subtle", 8000, strat_subtle, body_subtle; [0, 1, 2, 3, 7, 8, 16, 32, 60, 63, 64, 65, 127, 128, 129, 192, 255, 256, 257, 320, 512]);
         },
